@@ -2,6 +2,8 @@ import GdcVerif.Spec.T81H
 import GdcVerif.Model.JpegLossless
 import GdcVerif.Lemmas.JpegLossless
 import GdcVerif.Lemmas.T81H
+import GdcVerif.Lemmas.T81HStream
+import GdcVerif.Lemmas.JllEndToEnd
 /-!
   C13 — JPEG Lossless streams and decoders conform to T.81 Annex H.
 
@@ -142,5 +144,44 @@ theorem selectors_conform (b : Nat) :
 /-- regression: the former witnesses (`jll-td23-rejected`: byte 0x20; `sv1-sos-selector`: byte 0x10) -/
 example : td 0x20 = some 2 ∧ jllSelector 0x20 = .ok 2 ∧ td 0x10 = some 1 ∧ sv1Selector 0x10 = .ok 1 ∧
     td 0x40 = none ∧ jllSelector 0x40 = .err ∧ sv1Selector 0xFF = .err := by decide
+
+/-! ## STREAM LEVEL — the independent specification decodes the model encoder's stream -/
+
+/-- `specDecode (modelEncode img) = img`: the stream that the byte-exact model of `lossless.Encode`
+    (sv1 = false) / `lossless14sv1.Encode` (sv1 = true) produces is accepted by the strict Annex B reader
+    and decoded by the Annex H procedure (`Spec/T81HStream.lean`) to exactly the source samples, with
+    the same width, height and precision — for every geometry 1..65535, 1 or 3 components, P 2..16,
+    every admissible content, SV1, predictors 1 and 4 on every image, and predictors 2, 3, 5, 6, 7 on
+    exactly the geometries where the first-row / line-start deviation cannot show (`EdgeConform`:
+    2 and 6 on one-column images, 5 on one-row images, any predictor on 1×1). -/
+theorem encoder_stream_conforms (sv1 : Bool) (pix : Array Nat) (w h nc P predictor : Nat)
+    (hw : 1 ≤ w ∧ w ≤ 65535) (hh : 1 ≤ h ∧ h ≤ 65535) (hc : nc = 1 ∨ nc = 3)
+    (hP : 2 ≤ P ∧ P ≤ 16) (hpr : 1 ≤ predictor ∧ predictor ≤ 7) (hpix : PixOk P w h nc pix)
+    (hedge : EdgeConform sv1 predictor w h) :
+    ∃ stream s, Stream.encode sv1 pix w h nc P predictor = .ok stream ∧
+      pixelsToSamples P w h nc pix = .ok s ∧
+      specDecode stream =
+        some { width := w, height := h, precision := P,
+               planes := (List.range nc).map fun c => (List.range (w * h)).map fun i => cell s c i } :=
+  encode_specDecode' sv1 pix w h nc P predictor hw hh hc hP hpr hpix hedge
+
+example : EdgeConform false 4 512 512 ∧ EdgeConform true 1 65535 1 ∧ EdgeConform false 6 1 9 ∧
+    ¬ EdgeConform false 7 2 1 := by decide
+
+/-- `EdgeConform` is EXACTLY the class of (predictor, geometry) on which the code's prediction equals
+    H.1.2.1's at every position of the image, for all neighbour values -/
+theorem edge_conform_exact (P pred w h : Nat) (hP : 2 ≤ P ∧ P ≤ 16) (hp : 1 ≤ pred ∧ pred ≤ 7)
+    (hw : 1 ≤ w) (hh : 1 ≤ h) :
+    EdgeConform false pred w h ↔
+      ∀ row col, row < h → col < w → ∀ nb : Nb,
+        encPredicted P pred row col nb = px P 0 pred row col nb.left nb.up nb.upLeft :=
+  edgeConform_iff P pred w h hP hp hw hh
+
+/-- two independent transcriptions of B.1.1.5 and Annex C agree: the spec's bit sequence of an
+    entropy-coded segment and its code table are the model's -/
+theorem spec_bits_and_codes_agree (scan : List Nat) (bits vals : List Nat) :
+    ecsBits scan = (unstuff scan).flatMap (fun b => bitsOf b 8) ∧
+    codeTable bits vals = vals.zip (specCodes bits 0 0) :=
+  ⟨ecsBits_eq scan, codeTable_eq bits vals⟩
 
 end T81H
